@@ -22,7 +22,7 @@ def pool():
     out = []
     for i, sh in enumerate(shs):
         n = len(model.leaves(sh))
-        out.append(model.simple_mt(sh, sid=i + 1, pos=['T%d' % ((i + j) % 3) for j in range(n)]))
+        out.append(model.simple_mt(sh, sid=i + 1, pos=[['T0', 'T1', 'T2', 'VROOT', 'EMPTY', '--'][(i + j) % 6] for j in range(n)]))
     return out
 
 
@@ -113,6 +113,15 @@ def check_tree(mtj, order=None):
             bad('brackets-writer-refuses', tdeg > 0, refused)
         if not refused and stream.getvalue().count('\n') != 1:
             bad('brackets-writer-output', 'one line', stream.getvalue())
+        # with brackets_skipdisco the refusal becomes a silent skip: nothing is written for a discontinuous tree
+        stream = io.StringIO()
+        try:
+            treeoutput.brackets(build(mt), stream, brackets_skipdisco=True)
+            wrote = stream.getvalue() != ''
+        except ValueError:
+            wrote = 'ValueError'
+        if wrote != (tdeg == 0):
+            bad('brackets-writer-skips (brackets_skipdisco)', tdeg == 0, wrote)
         # re-analysis of the SAME tree object after in-place changes (non-initial states): the reported
         # degrees must follow the tree, not remember earlier answers
         from trees import transform
